@@ -297,7 +297,7 @@ Proof.
     cbn [denote duration_expr] in *. destruct (denote p rho) as [b|] eqn:Eb; [|discriminate].
     destruct (scalar_eval _ _ _) as [sv|]; [|discriminate]. apply opt_all_map_Forall2 in Hd.
     rewrite (total_Forall2 _ _ _ Hd) by (intros x y Hxy; eapply piece_aff_fst; exact Hxy). eapply IHp; eassumption.
-  - (* ArithR *) cbn [wf] in Hwf. apply andb_prop in Hwf as (_ & Hwf). apply andb_prop in Hwf as (Hwf & _).
+  - (* ArithR *) cbn [wf] in Hwf. apply andb_prop in Hwf as (_ & Hwf). apply andb_prop in Hwf as (Hwf & _). apply andb_prop in Hwf as (Hwf & _).
     cbn [denote duration_expr] in *. destruct (denote p rho) as [b|] eqn:Eb; [|discriminate].
     destruct (scalar_eval _ _ _) as [sv|]; [|discriminate]. apply opt_all_map_Forall2 in Hd.
     rewrite (total_Forall2 _ _ _ Hd) by (intros x y Hxy; eapply piece_aff_fst; exact Hxy). eapply IHp; eassumption.
